@@ -710,6 +710,91 @@ def check_lazy_agreement_symmetric(repo, rep, rule='R05f'):
            construct=model.norm(cmp_nodes[0]) if cmp_nodes else '')
 
 
+def check_python_type_checker(repo, rep):
+    """R05i: the declared type of most parameters is a PythonType(cls,
+    validators=...).  Its check(), interpreted abstractly on an opaque
+    non-null value, accepts exactly when the value is an instance of the
+    class AND every validator accepts it -- whether or not the value's class
+    is the declared class itself.  (Integer / Number exclude booleans with a
+    validator; a fast path around the validators admits them again and
+    changes which overload is chosen.)"""
+    import itertools
+    from sa import absint
+    mod = repo.module('yaql.language.yaqltypes')
+    ci = mod.classes.get('PythonType')
+    if ci is None:
+        raise AnalysisError('anchor vanished: yaqltypes.PythonType')
+    chk = repo.find_method(ci, 'check')
+    if chk is None:
+        raise AnalysisError('anchor vanished: PythonType.check')
+    n = 0
+    bad = None
+    undecided = None
+    shapes = [('two validators', 2), ('one validator, not in a list', 1),
+              ('no validators', 0)]
+    for (label, nv), is_inst, exact in itertools.product(
+            shapes, (True, False), (True, False)):
+        if exact and not is_inst:
+            continue
+        for answers in itertools.product((True, False), repeat=nv):
+            PT = absint.Sym('the-declared-class')
+            value = absint.Obj('value')
+
+            def oracle(callee, args, kwargs):
+                if callee.startswith('validator#'):
+                    return (answers[int(callee[-1])],)
+                if callee == 'builtins.type' and args and args[0] is value:
+                    return (PT if exact else absint.Sym('a-subclass'),)
+                return None
+
+            def inst(v, cls_expr):
+                text = model.norm(cls_expr)
+                if v is value:
+                    if text.endswith('python_type'):
+                        return is_inst
+                    return False        # Constant, Expression ...
+                if isinstance(v, (list, tuple)):
+                    return 'list' in text or 'tuple' in text
+                if v is None:
+                    return False
+                if isinstance(v, absint.Sym):
+                    return False
+                raise absint.Unsupported('isinstance(%r, %s)' % (v, text))
+            vals = [absint.Sym('validator#%d' % i) for i in range(nv)]
+            arg = None if nv == 0 else (vals[0] if nv == 1 else vals)
+            it = absint.Interp(repo, mod, oracle, inst)
+            try:
+                obj = it.invoke(('global', ci.dotted), [PT, True, arg], {})
+                got = it.invoke(('bound', chk, obj), [
+                    value, absint.Sym('context'), absint.Sym('engine')], {})
+            except (absint.Unsupported, RecursionError) as e:
+                undecided = str(e)
+                continue
+            except absint._Raise as e:
+                got = 'raises %s' % e.v
+            n += 1
+            want = is_inst and all(answers)
+            if bool(got) is not want or not isinstance(got, bool):
+                bad = bad or (
+                    'with %s answering %s, a value that %s an instance of '
+                    'the declared class%s is %s' % (
+                        label, list(answers), 'is' if is_inst else 'is not',
+                        ' (its class is exactly that class)' if exact
+                        else '', 'accepted' if got is True else
+                        'rejected' if got is False else got))
+    if undecided and not n:
+        rep.note('R05i: PythonType.check not interpretable (%s)' % undecided)
+        return
+    rep.ob('R05i', ci.key + '/accepts-iff-instance-and-validators',
+           bad is None,
+           'PythonType.check must accept a value iff it is an instance of '
+           'the declared class and every validator accepts it; %s -- the '
+           'overloads this type was meant to exclude (validators tell '
+           'booleans from integers, ports from integers ...) match again' %
+           bad, loc=mod.loc(ci.node))
+    rep.floor('PythonType scenarios', n, 12)
+
+
 def _pairing_by_evaluation(repo, mod, fi):
     """_is_specialization_of applied abstractly to two mappings of one call
     f(x, k1=.., k2=.., k3=..) whose keyword parameters are listed in
@@ -897,6 +982,9 @@ def run(repo, rep):
     n3 = G(repo, rep, 'R05d', check_first_layer_wins, repo, rep)
     G(repo, rep, 'R05f', check_lazy_across_layers, repo, rep)
     check_keywords_paired_by_name(repo, rep)
+    rep.rule('R05i', 'TYPE-CHECK-IS-CLASS-AND-VALIDATORS: PythonType.check '
+             'accepts a non-null value iff isinstance and all validators')
+    check_python_type_checker(repo, rep)
     G(repo, rep, 'R05f', check_lazy_agreement_symmetric, repo, rep)
     from sa.rules import c11, c12, c17
     G(repo, rep, 'R11a', c11.check_r11a, repo, rep)
